@@ -1,4 +1,9 @@
-"""Region predicates of known findings (complements of the `_partial` hypotheses)."""
+"""Region predicates of known findings of the io slice (C20).
+
+Both C20 findings (load_patterns single-column row, load_ragged_time_series header row) are repaired in the library
+(fde71e7, 02e3fd0); their known_findings.json entries are "fixed" (witnesses re-run on every check, nothing is
+suppressed), so no region predicate is needed any more.
+"""
 REGIONS = {}
 
 
@@ -7,53 +12,3 @@ def region(name):
         REGIONS[name] = fn
         return fn
     return deco
-
-
-# ---- C20 (mir_eval.io) -------------------------------------------------------------------
-
-@region("c20_patterns_short_row")
-def c20_patterns_short_row(inp, what=""):
-    """load_patterns: some data line (no 'pattern'/'occurrence' in it) has no comma, and every data line before it
-    is well formed -> `string_values[1]` raises IndexError (complement of `patterns_error_partial`'s hypothesis)."""
-    if inp.get("loader") != "load_patterns":
-        return False
-
-    def ok(x):
-        try:
-            float(x)
-            return True
-        except ValueError:
-            return False
-    for line in inp["content"].split("\n"):
-        if line == "" or "pattern" in line or "occurrence" in line:
-            continue
-        parts = line.split(",")
-        if not ok(parts[0]):
-            return False
-        if len(parts) < 2:
-            return True
-        if not ok(parts[1]):
-            return False
-    return False
-
-
-@region("c20_ragged_text_header")
-def c20_ragged_text_header(inp, what=""):
-    """load_ragged_time_series(header=True) on a file whose first line is a header row: not a comment and its first
-    field is not a number."""
-    import re
-    if inp.get("loader") != "load_ragged_time_series" or not inp.get("params", {}).get("header"):
-        return False
-    p = inp["params"]
-    lines = inp["content"].split("\n")
-    if not lines or lines[0].strip() == "":
-        return False
-    first = lines[0]
-    if p.get("comment") is not None and re.match("^" + p["comment"], first):
-        return False
-    tok = re.split(p["delim"], first.strip())[0]
-    try:
-        float(tok)
-        return False
-    except ValueError:
-        return True
